@@ -8,15 +8,16 @@ import (
 
 // target is one Go function that is regenerated as a Lean definition.
 type target struct {
-	Dir     string   // package directory relative to the repo root
-	Recv    string   // receiver type name, "" for a plain function
-	Name    string   // function name
-	Lean    string   // name of the Lean definition (namespace Ucan.Gen)
-	Fuel    []string // fuel (a Lean Nat expression over the parameters) for each non-range loop, in source order
-	Uses    []string // section variables the definition mentions, passed explicitly by callers
-	Nilable []string // slice parameters that the function compares with nil: modelled as Option
-	File    string   // generated file (Ucan/Gen/<File>.lean)
-	Shell   bool     // every method the function calls on its receiver is a parameter (shellMethods): the definition
+	Dir      string   // package directory relative to the repo root
+	Recv     string   // receiver type name, "" for a plain function
+	Name     string   // function name
+	Lean     string   // name of the Lean definition (namespace Ucan.Gen)
+	Fuel     []string // fuel (a Lean Nat expression over the parameters) for each non-range loop, in source order
+	Uses     []string // section variables the definition mentions, passed explicitly by callers
+	Nilable  []string // slice parameters that the function compares with nil: modelled as Option
+	File     string   // generated file (Ucan/Gen/<File>.lean)
+	Concrete []string // Go types this target sees as their modelled struct (not as the opaque parameter of typeTable)
+	Shell    bool     // every method the function calls on its receiver is a parameter (shellMethods): the definition
 	// depends on the body of this one function only. A shell target is never a callee; list it after the full one.
 }
 
@@ -25,8 +26,8 @@ type target struct {
 type genFile struct {
 	Name    string
 	Imports []string
-	Structs bool
-	Prelude string // extra section variables of this file
+	Structs []string // keys of structTable whose Lean structures this file declares
+	Prelude string   // extra section variables of this file
 }
 
 var genFiles = []genFile{
@@ -36,7 +37,8 @@ var genFiles = []genFile{
 	{Name: "SelectorParse"},
 	{Name: "Secretbox", Prelude: secretboxPrelude},
 	{Name: "ParseTime", Imports: []string{"Facts"}},
-	{Name: "ChainTypes", Structs: true},
+	{Name: "ChainTypes", Structs: []string{"delegation.Token", "invocation.Token"}},
+	{Name: "Did", Structs: []string{"did.DID"}, Prelude: didPrelude},
 	{Name: "ChainTime", Imports: []string{"ChainTypes"}, Prelude: "variable (now : Int)\n"},
 	{Name: "ChainProofs", Imports: []string{"ChainTypes", "Command"}},
 	{Name: "PolicyAcc"},
@@ -71,6 +73,7 @@ var targets = []target{
 		Uses: []string{"ext_randRead", "ext_seal"}},
 	{Dir: "pkg/meta/internal/crypto", Name: "DecryptStringWithKey", Lean: "DecryptStringWithKey", File: "Secretbox", Nilable: []string{"key"},
 		Uses: []string{"ext_open"}},
+	{Dir: "did", Name: "Parse", Lean: "did_Parse", File: "Did", Uses: []string{"ext_mbDecode", "ext_fromUvarint"}, Concrete: []string{"did.DID"}},
 	{Dir: "token/internal/parse", Name: "OptionalTimestamp", Lean: "OptionalTimestamp", File: "ParseTime"},
 	{Dir: "token/delegation", Recv: "Token", Name: "IsValidAt", Lean: "Dlg_IsValidAt", File: "ChainTime"},
 	{Dir: "token/invocation", Recv: "Token", Name: "IsValidAt", Lean: "Inv_IsValidAt", File: "ChainTime"},
@@ -135,7 +138,8 @@ var typeTable = map[string]string{
 	"policy.Statement":  "(Option S)", // an interface value; nil = "no statement to report"
 	"policy.Policy":     "(List (Option S))",
 	"*args.Args":        "A",
-	"args.ReadOnly":     "R", // the read-only view handed to an argument hook
+	"multicodec.Code":   "Int", // a multicodec code is an unsigned varint; only compared with constants
+	"args.ReadOnly":     "R",   // the read-only view handed to an argument hook
 }
 
 // structDef is a Go struct whose listed fields are modelled; the Lean structure is generated from the
@@ -156,12 +160,17 @@ var structTable = map[string]*structDef{
 		want: []string{"issuer", "audience", "subject", "command", "policy", "notBefore", "expiration"}},
 	"invocation.Token": {dir: "token/invocation", name: "Token", lean: "InvTok", leanType: "(InvTok D C A)", params: "(D C A : Type)",
 		want: []string{"issuer", "subject", "audience", "command", "arguments", "proof", "expiration"}},
+	// the DID value as package did itself sees it (every other package sees the opaque, comparable D)
+	"did.DID": {dir: "did", name: "DID", lean: "DidVal", leanType: "DidVal", params: "", want: []string{"code", "bytes"}},
 }
 
-var structOrder = []string{"delegation.Token", "invocation.Token"}
-
-func emitStructs(b *strings.Builder) error {
-	for _, key := range structOrder {
+func emitStructs(b *strings.Builder, keys []string) error {
+	concreteTypes = map[string]bool{}
+	for _, key := range keys {
+		concreteTypes[key] = true
+	}
+	defer func() { concreteTypes = map[string]bool{} }()
+	for _, key := range keys {
 		st := structTable[key]
 		p, err := loadPkg(st.dir)
 		if err != nil {
@@ -208,6 +217,9 @@ type libCall struct {
 	uses []string
 }
 
+// impureLibCalls: library functions that can fail — their translation is a GoM computation
+var impureLibCalls = map[string]bool{"mbase.Decode": true, "varint.FromUvarint": true}
+
 // libCalls: standard-library functions with their model. `lower` (strings.ToLower) stays a parameter.
 var libCalls = map[string]libCall{
 	// secretbox.Seal(out, message, &nonce, &key) appends the box to out; Open(nil, box, &nonce, &key) returns (message, ok)
@@ -218,7 +230,10 @@ var libCalls = map[string]libCall{
 	"strings.HasPrefix": {"(List.isPrefixOf $2 $1)", boolTy, nil},
 	"strings.HasSuffix": {"(List.isSuffixOf $2 $1)", boolTy, nil},
 	"strings.ToLower":   {"(lower $1)", ty{"Bytes", "string"}, []string{"lower"}},
-	"strings.Split":     {"(splitOn $1 $2)", ty{"(List Bytes)", "[]string"}, nil}, // a non-empty separator (the callers pass a constant)
+	// go-multibase Decode: the base found (its prefix character) and the decoded bytes; go-varint FromUvarint: value and bytes read
+	"mbase.Decode":       {"(ext_mbDecode $1)", ty{"(Int × Bytes)", "pair"}, []string{"ext_mbDecode"}},
+	"varint.FromUvarint": {"(ext_fromUvarint $1)", ty{"(Int × Int)", "pair"}, []string{"ext_fromUvarint"}},
+	"strings.Split":      {"(splitOn $1 $2)", ty{"(List Bytes)", "[]string"}, nil}, // a non-empty separator (the callers pass a constant)
 }
 
 // methodCalls: library methods, keyed by "GoType.Method".
@@ -271,6 +286,8 @@ var useTypes = map[string]string{
 	"ext_verifyTimeBound":  "InvTok D C A → List (DlgTok D S) → GoM Unit",
 	"ext_verifyArgs":       "InvTok D C A → List (DlgTok D S) → A → GoM Unit",
 	"ext_matchStatement":   "Option S → N → (Int × (Option S))",
+	"ext_mbDecode":         "Bytes → GoM (Int × Bytes)",
+	"ext_fromUvarint":      "Bytes → GoM (Int × Int)",
 }
 
 // pairTypes: component types of the pair types externs return
@@ -278,6 +295,8 @@ var pairTypes = map[string][2]ty{
 	"(Int × (Option S))":  {intTy, ty{"(Option S)", "policy.Statement"}},
 	"(Bytes × Bool)":      {ty{"Bytes", "[]byte"}, boolTy},
 	"(Bool × (Option S))": {boolTy, ty{"(Option S)", "policy.Statement"}},
+	"(Int × Bytes)":       {intTy, ty{"Bytes", "[]byte"}},
+	"(Int × Int)":         {intTy, intTy},
 }
 
 const policyMatchPrelude = `variable {N : Type} (ext_matchStatement : Option S → N → (Int × (Option S)))
@@ -295,6 +314,9 @@ const secretboxPrelude = `variable (ext_randRead : Nat → GoM Bytes) (ext_seal 
   (ext_open : Bytes → Bytes → Bytes → (Bytes × Bool))
 `
 
+const didPrelude = `variable (ext_mbDecode : Bytes → GoM (Int × Bytes)) (ext_fromUvarint : Bytes → GoM (Int × Int))
+`
+
 const chainEntryPrelude = `variable {L R : Type} (ext_executionAllowed : InvTok D C A → L → A → GoM Unit) (ext_ReadOnly : A → GoM R)
 `
 
@@ -310,10 +332,19 @@ type constDef struct {
 // constTable: constants of other packages. math.MinInt / math.MaxInt are the 64-bit values (the
 // sentinel the selector parser stores for an open slice bound).
 var constTable = map[string]constDef{
-	"math.MinInt":     {"(-9223372036854775808 : Int)", intTy},
-	"limits.MaxInt53": {"Ucan.Facts.maxInt53", intTy}, // the regenerated constants (Gen/Facts.lean)
-	"limits.MinInt53": {"Ucan.Facts.minInt53", intTy},
-	"math.MaxInt":     {"(9223372036854775807 : Int)", intTy},
+	// go-multibase / go-multicodec constants (dependencies): the prefix character of base58btc, the public-key codecs
+	"mbase.Base58BTC":         {"(122 : Int)", intTy},
+	"multicodec.X25519Pub":    {"(236 : Int)", intTy},
+	"multicodec.Ed25519Pub":   {"(237 : Int)", intTy},
+	"multicodec.Secp256k1Pub": {"(231 : Int)", intTy},
+	"multicodec.P256Pub":      {"(4608 : Int)", intTy},
+	"multicodec.P384Pub":      {"(4609 : Int)", intTy},
+	"multicodec.P521Pub":      {"(4610 : Int)", intTy},
+	"multicodec.RsaPub":       {"(4613 : Int)", intTy},
+	"math.MinInt":             {"(-9223372036854775808 : Int)", intTy},
+	"limits.MaxInt53":         {"Ucan.Facts.maxInt53", intTy}, // the regenerated constants (Gen/Facts.lean)
+	"limits.MinInt53":         {"Ucan.Facts.minInt53", intTy},
+	"math.MaxInt":             {"(9223372036854775807 : Int)", intTy},
 }
 
 const prelude = `variable (lower : Bytes → Bytes) {D C S A : Type} [DecidableEq D]
